@@ -731,7 +731,14 @@ struct VecMachine
 
          // assignment and multAdd need a sparse operand without repeated indices (the index array has dim+1 entries,
          // multAdd marks cancelled entries with SOPLEX_VECTOR_MARKER)
-         if(!inDim(v, x.dim()) || ((c == "xsetsv" || c == "xmaddsv") && !noDup(v))) SKIP
+         // multAdd on a set-up vector relies on "non-zero value => indexed" (setValue(i, tiny) can break that)
+         bool indexed = true;
+
+         if(c == "xmaddsv" && x.isSetup())
+            for(int i = 0; i < x.dim(); i++)
+               indexed = indexed && (x[i] == 0 || x.pos(i) >= 0);
+
+         if(!inDim(v, x.dim()) || ((c == "xsetsv" || c == "xmaddsv") && !noDup(v)) || !indexed) SKIP
             if(c == "xaddsv") x += v;
             else if(c == "xsubsv") x -= v;
             else if(c == "xsetsv") x = v;
@@ -798,6 +805,10 @@ struct SvsAcc
    {
       s.remove(nums, n, perm);
    }
+   static void addSet(Set& s, DataKey* keys, const Set& t)
+   {
+      s.add(keys, t);
+   }
 };
 struct RowAcc
 {
@@ -837,6 +848,10 @@ struct RowAcc
    {
       s.remove(nums, n, perm);
    }
+   static void addSet(Set& s, DataKey* keys, const Set& t)
+   {
+      s.add(keys, t);
+   }
 };
 struct ColAcc
 {
@@ -875,6 +890,10 @@ struct ColAcc
    static void removeNums(Set& s, const int* nums, int n, int* perm)
    {
       s.remove(nums, n, perm);
+   }
+   static void addSet(Set& s, DataKey* keys, const Set& t)
+   {
+      s.add(keys, t);
    }
 };
 
@@ -984,6 +1003,34 @@ struct VSetMachine
          DataKey key;
          A::add(*s, key, sc, v);
          ret = "key:" + std::to_string(key.idx);
+      }
+      else if(c == "addself")
+      {
+         // add(keys[], set) with a second set holding the same vectors (built vector by vector)
+         int n = b.num();
+         Set tmp(2, 2);
+
+         for(int i = 0; i < n; i++)
+         {
+            double sc[3] = {0, 0, 0};
+
+            for(int j = 0; j < A::nscal; j++)
+               sc[j] = A::scal(*s, i, j);
+
+            DSVectorBase<double> v(A::vec(*s, i).size() + 1);
+            v = A::vec(*s, i);
+            DataKey k;
+            A::add(tmp, k, sc, v);
+         }
+
+         std::vector<DataKey> keys(n + 1);
+         A::addSet(*s, keys.data(), tmp);
+         std::vector<int> ki;
+
+         for(int i = 0; i < n; i++)
+            ki.push_back(keys[i].idx);
+
+         ret = list("keys:", ki.data(), n);
       }
       else if(c == "add2")
       {
